@@ -24,7 +24,8 @@ ASSUMPTIONS = [
 WITNESSES = {'quick': ['served-from-cache', 'failure-marker-survived', 'created-dirs-survived', 'cache-object-compared'],
              'thorough': ['served-from-cache']}
 
-NAMES = ['plain.txt', 'with space', 'ünï cödé', '.hidden', '名前', 'quo"te\'', 'back\\slash', 'new\nline', ' lead']
+NAMES = ['plain.txt', 'with space', 'ünï cödé', '.hidden', '名前', 'quo"te\'', 'back\\slash', 'new\nline', ' lead',
+         'r\udce9sum\udce9', '\U0001F600.txt']        # incl. a name that is not valid UTF-8 (os.fsdecode of Latin-1 bytes)
 MID = {'leaf_kinds': ['none', 'bool', 'int', 'float', 'special', 'str'], 'key_kinds': ['str'],
        'specials': [-0.0, 0.5, float('inf'), 1e300], 'lits': ['true', '', '\U0001F600']}
 
@@ -34,7 +35,7 @@ def families(tier):
         {'name': 'e2e', 'params': {'depth': 2, 'width': 1, 'who': 'a'}, 'weight': 2},
         {'name': 'e2e', 'params': {'depth': 1, 'width': 2, 'who': 'bf'}, 'weight': 2},
         {'name': 'e2e', 'params': {'depth': 1, 'width': 1, 'who': 'version'}, 'weight': 1},
-        {'name': 'names', 'params': {}, 'weight': 1},
+        {'name': 'names', 'params': {}, 'weight': 1, 'validate': 24},
     ]
     if tier == 'quick':
         return q
@@ -77,7 +78,7 @@ def harness(eng, fam, P):
     sh = J.Shape(**MID)
     if fam == 'names':
         n1 = NAMES[eng.choose('n1', len(NAMES))]
-        n2 = NAMES[eng.choose('n2', len(NAMES))]
+        n2 = NAMES[(NAMES.index(n1) + 3) % len(NAMES)]
         val = eng.fresh_int('v')
         who = 'a'
     else:
@@ -113,6 +114,10 @@ def harness(eng, fam, P):
         extra = {'repr': eng.repr_fn()} if eng.symbolic else None
         w.bind(extra)
         impl1, ref1 = d.build(prog, versions=versions, behaviour=beh)
+        # whatever the build recorded (any legal name, any JSON value) must be writable: the commit may not fail where
+        # the from-scratch reference succeeds
+        eng.check('C16.commit-failed', not (impl1[0] == 'exc' and ref1[0] == 'ok'), (fam, who),
+                  info={'exception': repr(impl1[1])[:200], 'names': [n1, n2]})
         d.guard_same('first')
         if impl1[0] != 'ok':
             eng.note('first-build-failed')
